@@ -4,9 +4,12 @@ import json, os, glob
 VERIF = os.path.dirname(os.path.dirname(os.path.abspath(__file__)))
 props = [json.loads(l) for l in open(os.path.join(VERIF, 'properties.jsonl'))]
 claims = {}
+# a claim file is honoured only once the integrator has seen its check pass in /verif itself
+enabled = set(json.load(open(os.path.join(VERIF, 'tools', 'claims', 'enabled.json'))))
 for f in sorted(glob.glob(os.path.join(VERIF, 'tools', 'claims', 'C*.json'))):
     c = json.load(open(f))
-    claims[c['property_id']] = c
+    if c['property_id'] in enabled:
+        claims[c['property_id']] = c
 checks = []
 for p in props:
     pid = p['id']
